@@ -38,6 +38,12 @@ var c07Uses = []useSpec{
 	{"ks1 /* switch */", "ks1", true, false},
 	{"ks4 -- back again", "ks4", true, false},
 	{"ks2 /* a */ ;", "ks2", true, false},
+	// names that spell another session's attributes run together (a compression name followed by
+	// another keyspace's name; a version digit in front): whatever identifies a session must keep
+	// its parts apart
+	{"lz4ks1", "lz4ks1", true, false},
+	{"snappyks2", "snappyks2", true, false},
+	{"lz4ks4", "", false, false},
 	// a keyspace the nodes refuse to switch to for the time being (they shed load)
 	{"ks_busy", "", false, true},
 }
@@ -63,7 +69,7 @@ func c07(e *Env) {
 	}
 	w := f.w
 	for _, n := range w.Nodes {
-		n.Keyspaces = map[string]bool{"ks1": true, "ks2": true, "Ks3": true, "ks4": true, "KS4": true, "system": true}
+		n.Keyspaces = map[string]bool{"ks1": true, "ks2": true, "Ks3": true, "ks4": true, "KS4": true, "lz4ks1": true, "snappyks2": true, "system": true}
 		n.BusyKeyspaces = map[string]bool{"ks_busy": true}
 	}
 	refuser := -1
